@@ -119,36 +119,40 @@ structure LoopOut (α : Type) where
   KT : α
   outOfFuel : Bool
 
-/-- one pass through the body of `while r.successful() and not stop` -/
-def loopBody (integ : α → List α → α → Integ α) (TaOf : α → α) (cp zmin fdis : α)
-    (first : α × List α) (last : α × List α) (k : Nat) (KT : α) :
-    (α × List α) × Nat × Stop × α :=
+/-- one pass through the body of `while r.successful() and not stop`.
+    The integrator is ANY function of its own hidden state `s : σ` (VODE keeps its Nordsieck
+    history: the in-place edits of `r.y` below are seen by the stored rows, not necessarily by the
+    next step), the last stored time/state and the particle's flag. -/
+def loopBody {σ : Type} (integ : σ → α → List α → α → σ × Integ α) (TaOf : α → α) (cp zmin fdis : α)
+    (first : α × List α) (s : σ) (last : α × List α) (k : Nat) (KT : α) :
+    (α × List α) × Nat × Stop × α × σ :=
   let f := Num.sum (masses last.2) / Num.sum (masses first.2)
-  let r := integ last.1 last.2 KT
+  let sr := integ s last.1 last.2 KT
+  let r := sr.2
   let y' := postStep r.KT cp (TaOf (depth r.y)) r.y
   let k' := k + 1
   let st := if r.ok then stopTests zmin fdis f k' last.1 (depth last.2) r.t (depth y')
             else { stopNone with failed := true }
-  ((r.t, y'), k', st, r.KT)
+  ((r.t, y'), k', st, r.KT, sr.1)
 
-def loop (integ : α → List α → α → Integ α) (TaOf : α → α) (cp zmin fdis : α)
-    (first : α × List α) : Nat → (α × List α) → List (α × List α) → Nat → α → LoopOut α
-  | 0, last, older, k, KT =>
+def loop {σ : Type} (integ : σ → α → List α → α → σ × Integ α) (TaOf : α → α) (cp zmin fdis : α)
+    (first : α × List α) : Nat → σ → (α × List α) → List (α × List α) → Nat → α → LoopOut α
+  | 0, _, last, older, k, KT =>
       { rows := last :: older, k := k, stop := stopNone, KT := KT, outOfFuel := true }
-  | fuel + 1, last, older, k, KT =>
-      let b := loopBody integ TaOf cp zmin fdis first last k KT
+  | fuel + 1, s, last, older, k, KT =>
+      let b := loopBody integ TaOf cp zmin fdis first s last k KT
       if b.2.2.1.any then
-        { rows := b.1 :: last :: older, k := b.2.1, stop := b.2.2.1, KT := b.2.2.2, outOfFuel := false }
-      else loop integ TaOf cp zmin fdis first fuel b.1 (last :: older) b.2.1 b.2.2.2
+        { rows := b.1 :: last :: older, k := b.2.1, stop := b.2.2.1, KT := b.2.2.2.1, outOfFuel := false }
+      else loop integ TaOf cp zmin fdis first fuel b.2.2.2.2 b.1 (last :: older) b.2.1 b.2.2.2.1
 
 /-- l.872-877: `rows = y[:,2] >= 0` -/
 def dropNegDepth (rows : List (α × List α)) : List (α × List α) :=
   rows.filter fun r => decide (0 ≤ depth r.2)
 
 /-- `calculate_path`: rows oldest first -/
-def calculatePath (integ : α → List α → α → Integ α) (TaOf : α → α) (cp zmin fdis KT : α)
-    (y0 : List α) : LoopOut α :=
-  let out := loop integ TaOf cp zmin fdis (0, y0) 300001 (0, y0) [] 0 KT
+def calculatePath {σ : Type} (integ : σ → α → List α → α → σ × Integ α) (s0 : σ) (TaOf : α → α)
+    (cp zmin fdis KT : α) (y0 : List α) : LoopOut α :=
+  let out := loop integ TaOf cp zmin fdis (0, y0) 300001 s0 (0, y0) [] 0 KT
   { out with rows := dropNegDepth out.rows.reverse }
 
 -- ------------------------------------------------------------------ sbm_ic
@@ -170,9 +174,9 @@ def ic (X0 m0 : List α) (T0 : Option α) (Ta cp : α) : List α :=
 
 /-- `Model.simulate`: `self.K_T0 = K_T; particle = SingleParticle(…, K_T, …); calculate_path;
     self.particle.K_T = self.K_T0` — returns the rows and the particle's `K_T` afterwards -/
-def simulate (integ : α → List α → α → Integ α) (TaOf : α → α) (cp zmin fdis KT0 : α)
-    (y0 : List α) : List (α × List α) × α :=
-  let out := calculatePath integ TaOf cp zmin fdis KT0 y0
+def simulate {σ : Type} (integ : σ → α → List α → α → σ × Integ α) (s0 : σ) (TaOf : α → α)
+    (cp zmin fdis KT0 : α) (y0 : List α) : List (α × List α) × α :=
+  let out := calculatePath integ s0 TaOf cp zmin fdis KT0 y0
   (out.rows, KT0)
 
 -- ------------------------------------------------------------------ line protocol
